@@ -29,4 +29,14 @@ theorem add_sub_regroup (x z y : Poly) (h1 : z.length = x.length) (h2 : y.length
     simp only [List.getElem_zipWith]
     omega
 
+/-- `b − ((b − a) + z) = a − z` on lists of equal length -/
+theorem sub_add_sub_regroup (a b z : Poly) (h1 : a.length = b.length) (h2 : z.length = b.length) :
+    polySub b (polyAdd (polySub b a) z) = polySub a z := by
+  unfold polyAdd polySub
+  apply List.ext_getElem
+  · simp [h1, h2]
+  · intro t ht1 ht2
+    simp only [List.getElem_zipWith]
+    omega
+
 end Hal
